@@ -104,13 +104,15 @@ type frame struct {
 	caller           *frame
 	fn               *ssa.Function
 	block, prevBlock *ssa.BasicBlock
-	env              map[ssa.Value]value // dynamic values of SSA variables
+	env              []value // dynamic values of SSA variables (indexed by fnInfo.idx)
+	info             *fnInfo
 	locals           []value
 	defers           *deferred
 	result           value
 	panicking        bool
 	panic            interface{}
 	phitemps         []value // temporaries for parallel phi assignment
+	curInstr         ssa.Instruction
 }
 
 func (fr *frame) get(key ssa.Value) value {
@@ -128,8 +130,8 @@ func (fr *frame) get(key ssa.Value) value {
 			return r
 		}
 	}
-	if r, ok := fr.env[key]; ok {
-		return r
+	if ix, ok := fr.info.idx[key]; ok {
+		return fr.env[ix]
 	}
 	panic(fmt.Sprintf("get: no value for %T: %v", key, key.Name()))
 }
@@ -177,6 +179,15 @@ func (fr *frame) runDefers() {
 // lookupMethod returns the method set for type typ, which may be one
 // of the interpreter's fake types.
 func lookupMethod(i *interpreter, typ types.Type, meth *types.Func) *ssa.Function {
+	if sp := Shadow; sp != nil && typeInShadow(typ) {
+		var pkg *types.Package
+		if meth.Pkg() != nil {
+			if p := sp.ImportedPackage(meth.Pkg().Path()); p != nil {
+				pkg = p.Pkg
+			}
+		}
+		return sp.LookupMethod(typ, pkg, meth.Name())
+	}
 	return i.prog.LookupMethod(typ, meth.Pkg(), meth.Name())
 }
 
@@ -189,35 +200,35 @@ func visitInstr(fr *frame, instr ssa.Instruction) continuation {
 		// no-op
 
 	case *ssa.UnOp:
-		fr.env[instr] = unop(instr, fr.get(instr.X))
+		fr.env[fr.info.idx[instr]] = unop(instr, fr.get(instr.X))
 
 	case *ssa.BinOp:
-		fr.env[instr] = binop(instr.Op, instr.X.Type(), fr.get(instr.X), fr.get(instr.Y))
+		fr.env[fr.info.idx[instr]] = binop(instr.Op, instr.X.Type(), fr.get(instr.X), fr.get(instr.Y))
 
 	case *ssa.Call:
 		fn, args := prepareCall(fr, &instr.Call)
-		fr.env[instr] = call(fr.i, fr, instr.Pos(), fn, args)
+		fr.env[fr.info.idx[instr]] = call(fr.i, fr, instr.Pos(), fn, args)
 
 	case *ssa.ChangeInterface:
-		fr.env[instr] = fr.get(instr.X)
+		fr.env[fr.info.idx[instr]] = fr.get(instr.X)
 
 	case *ssa.ChangeType:
-		fr.env[instr] = fr.get(instr.X) // (can't fail)
+		fr.env[fr.info.idx[instr]] = fr.get(instr.X) // (can't fail)
 
 	case *ssa.Convert:
-		fr.env[instr] = conv(instr.Type(), instr.X.Type(), fr.get(instr.X))
+		fr.env[fr.info.idx[instr]] = conv(instr.Type(), instr.X.Type(), fr.get(instr.X))
 
 	case *ssa.SliceToArrayPointer:
-		fr.env[instr] = sliceToArrayPointer(instr.Type(), instr.X.Type(), fr.get(instr.X))
+		fr.env[fr.info.idx[instr]] = sliceToArrayPointer(instr.Type(), instr.X.Type(), fr.get(instr.X))
 
 	case *ssa.MakeInterface:
-		fr.env[instr] = iface{t: instr.X.Type(), v: fr.get(instr.X)}
+		fr.env[fr.info.idx[instr]] = iface{t: instr.X.Type(), v: fr.get(instr.X)}
 
 	case *ssa.Extract:
-		fr.env[instr] = fr.get(instr.Tuple).(tuple)[instr.Index]
+		fr.env[fr.info.idx[instr]] = fr.get(instr.Tuple).(tuple)[instr.Index]
 
 	case *ssa.Slice:
-		fr.env[instr] = slice(fr.get(instr.X), fr.get(instr.Low), fr.get(instr.High), fr.get(instr.Max))
+		fr.env[fr.info.idx[instr]] = slice(fr.get(instr.X), fr.get(instr.Low), fr.get(instr.High), fr.get(instr.Max))
 
 	case *ssa.Return:
 		switch len(instr.Results) {
@@ -284,17 +295,17 @@ func visitInstr(fr *frame, instr ssa.Instruction) continuation {
 		}()
 
 	case *ssa.MakeChan:
-		fr.env[instr] = make(chan value, asInt64(fr.get(instr.Size)))
+		fr.env[fr.info.idx[instr]] = make(chan value, asInt64(fr.get(instr.Size)))
 
 	case *ssa.Alloc:
 		var addr *value
 		if instr.Heap {
 			// new
 			addr = new(value)
-			fr.env[instr] = addr
+			fr.env[fr.info.idx[instr]] = addr
 		} else {
 			// local
-			addr = fr.env[instr].(*value)
+			addr = fr.env[fr.info.idx[instr]].(*value)
 		}
 		*addr = zero(mustDeref(instr.Type()))
 
@@ -304,7 +315,7 @@ func visitInstr(fr *frame, instr ssa.Instruction) continuation {
 		for i := range slice {
 			slice[i] = zero(tElt)
 		}
-		fr.env[instr] = slice[:asInt64(fr.get(instr.Len))]
+		fr.env[fr.info.idx[instr]] = slice[:asInt64(fr.get(instr.Len))]
 
 	case *ssa.MakeMap:
 		var reserve int64
@@ -314,28 +325,28 @@ func visitInstr(fr *frame, instr ssa.Instruction) continuation {
 		if !fitsInt(reserve, fr.i.sizes) {
 			panic(fmt.Sprintf("ssa.MakeMap.Reserve value %d does not fit in int", reserve))
 		}
-		fr.env[instr] = makeMap(instr.Type().Underlying().(*types.Map).Key(), reserve)
+		fr.env[fr.info.idx[instr]] = makeMap(instr.Type().Underlying().(*types.Map).Key(), reserve)
 
 	case *ssa.Range:
-		fr.env[instr] = rangeIter(fr.get(instr.X), instr.X.Type())
+		fr.env[fr.info.idx[instr]] = rangeIter(fr.get(instr.X), instr.X.Type())
 
 	case *ssa.Next:
-		fr.env[instr] = fr.get(instr.Iter).(iter).next()
+		fr.env[fr.info.idx[instr]] = fr.get(instr.Iter).(iter).next()
 
 	case *ssa.FieldAddr:
-		fr.env[instr] = &(*fr.get(instr.X).(*value)).(structure)[instr.Field]
+		fr.env[fr.info.idx[instr]] = &(*fr.get(instr.X).(*value)).(structure)[instr.Field]
 
 	case *ssa.Field:
-		fr.env[instr] = fr.get(instr.X).(structure)[instr.Field]
+		fr.env[fr.info.idx[instr]] = fr.get(instr.X).(structure)[instr.Field]
 
 	case *ssa.IndexAddr:
 		x := fr.get(instr.X)
 		idx := fr.get(instr.Index)
 		switch x := x.(type) {
 		case []value:
-			fr.env[instr] = &x[concretizeIndex(idx, len(x), "index")]
+			fr.env[fr.info.idx[instr]] = &x[concretizeIndex(idx, len(x), "index")]
 		case *value: // *array
-			fr.env[instr] = &(*x).(array)[concretizeIndex(idx, len((*x).(array)), "index")]
+			fr.env[fr.info.idx[instr]] = &(*x).(array)[concretizeIndex(idx, len((*x).(array)), "index")]
 		default:
 			panic(fmt.Sprintf("unexpected x type in IndexAddr: %T", x))
 		}
@@ -346,21 +357,21 @@ func visitInstr(fr *frame, instr ssa.Instruction) continuation {
 
 		switch x := x.(type) {
 		case array:
-			fr.env[instr] = x[asInt64(idx)]
+			fr.env[fr.info.idx[instr]] = x[asInt64(idx)]
 		case *SymStr:
-			fr.env[instr] = x.B[concretizeIndex(idx, len(x.B), "index")]
+			fr.env[fr.info.idx[instr]] = x.B[concretizeIndex(idx, len(x.B), "index")]
 		case string:
 			if isSym(idx) {
-				fr.env[instr] = uint8(x[concretizeIndex(idx, len(x), "index")])
+				fr.env[fr.info.idx[instr]] = uint8(x[concretizeIndex(idx, len(x), "index")])
 			} else {
-				fr.env[instr] = x[asInt64(idx)]
+				fr.env[fr.info.idx[instr]] = x[asInt64(idx)]
 			}
 		default:
 			panic(fmt.Sprintf("unexpected x type in Index: %T", x))
 		}
 
 	case *ssa.Lookup:
-		fr.env[instr] = lookup(instr, fr.get(instr.X), fr.get(instr.Index))
+		fr.env[fr.info.idx[instr]] = lookup(instr, fr.get(instr.X), fr.get(instr.Index))
 
 	case *ssa.MapUpdate:
 		m := fr.get(instr.Map)
@@ -374,14 +385,14 @@ func visitInstr(fr *frame, instr ssa.Instruction) continuation {
 		}
 
 	case *ssa.TypeAssert:
-		fr.env[instr] = typeAssert(fr.i, instr, fr.get(instr.X).(iface))
+		fr.env[fr.info.idx[instr]] = typeAssert(fr.i, instr, fr.get(instr.X).(iface))
 
 	case *ssa.MakeClosure:
 		var bindings []value
 		for _, binding := range instr.Bindings {
 			bindings = append(bindings, fr.get(binding))
 		}
-		fr.env[instr] = &closure{instr.Fn.(*ssa.Function), bindings}
+		fr.env[fr.info.idx[instr]] = &closure{instr.Fn.(*ssa.Function), bindings}
 
 	case *ssa.Phi:
 		log.Fatal("unreachable") // phis are processed at block entry
@@ -427,7 +438,7 @@ func visitInstr(fr *frame, instr ssa.Instruction) continuation {
 				r = append(r, v)
 			}
 		}
-		fr.env[instr] = r
+		fr.env[fr.info.idx[instr]] = r
 
 	default:
 		panic(fmt.Sprintf("unexpected instruction: %T", instr))
@@ -454,7 +465,9 @@ func prepareCall(fr *frame, call *ssa.CallCommon) (fn value, args []value) {
 		if recv.t == nil {
 			panic("method invoked on nil interface")
 		}
-		if f := lookupMethod(fr.i, recv.t, call.Method); f == nil {
+		if nf := errorMethod(recv.t); nf != nil && call.Method.Name() == "Error" {
+			fn = nf
+		} else if f := lookupMethod(fr.i, recv.t, call.Method); f == nil {
 			// Unreachable in well-typed programs.
 			panic(fmt.Sprintf("method set for dynamic type %v does not contain %s", recv.t, call.Method))
 		} else {
@@ -482,6 +495,8 @@ func call(i *interpreter, caller *frame, callpos token.Pos, fn value, args []val
 		return callSSA(i, caller, callpos, fn.Fn, args, fn.Env)
 	case *ssa.Builtin:
 		return callBuiltin(caller, callpos, fn, args)
+	case nativeFunc:
+		return fn(args)
 	}
 	panic(fmt.Sprintf("cannot call %T", fn))
 }
@@ -518,6 +533,12 @@ func callSSA(i *interpreter, caller *frame, callpos token.Pos, fn *ssa.Function,
 			curIntrinsic = name
 			return ext(fr, args)
 		}
+		if fn.Blocks == nil {
+			if sh := shadowLookup(fn); sh != nil {
+				fn = sh
+				fr.fn = sh
+			}
+		}
 		if fn.Blocks == nil || !i.interpreted(fn) {
 			panic(unsupported{"no model for external function " + name})
 		}
@@ -529,18 +550,19 @@ func callSSA(i *interpreter, caller *frame, callpos token.Pos, fn *ssa.Function,
 		panic("interp requires ssa.BuilderMode to include InstantiateGenerics to execute generics")
 	}
 
-	fr.env = make(map[ssa.Value]value)
+	fr.info = infoOf(fn)
+	fr.env = make([]value, fr.info.n)
 	fr.block = fn.Blocks[0]
 	fr.locals = make([]value, len(fn.Locals))
 	for i, l := range fn.Locals {
 		fr.locals[i] = zero(mustDeref(l.Type()))
-		fr.env[l] = &fr.locals[i]
+		fr.env[fr.info.idx[l]] = &fr.locals[i]
 	}
 	for i, p := range fn.Params {
-		fr.env[p] = args[i]
+		fr.env[fr.info.idx[p]] = args[i]
 	}
 	for i, fv := range fn.FreeVars {
-		fr.env[fv] = env[i]
+		fr.env[fr.info.idx[fv]] = env[i]
 	}
 	for fr.block != nil {
 		runFrame(fr)
@@ -591,7 +613,7 @@ func runFrame(fr *frame) {
 		}
 
 		if X.steps++; X.steps > X.MaxSteps {
-			panic(unsupported{"step budget exceeded (unwinding bound) in " + fr.fn.String()})
+			panic(stepBudget{fr.fn.String()})
 		}
 		CurFrame = fr
 		nonPhis := executePhis(fr)
@@ -603,6 +625,7 @@ func runFrame(fr *frame) {
 					fmt.Fprintln(os.Stderr, "\t", instr)
 				}
 			}
+			fr.curInstr = instr
 			if visitInstr(fr, instr) == kReturn {
 				return
 			}
@@ -640,7 +663,7 @@ func executePhis(fr *frame) []ssa.Instruction {
 			fr.phitemps = append(fr.phitemps, fr.get(phi.Edges[predIndex]))
 		}
 		for i, phi := range phis {
-			fr.env[phi.(*ssa.Phi)] = fr.phitemps[i]
+			fr.env[fr.info.idx[phi.(*ssa.Phi)]] = fr.phitemps[i]
 		}
 	}
 	return nonPhis
@@ -757,4 +780,44 @@ func Interpret(mainpkg *ssa.Package, mode Mode, sizes types.Sizes, filename stri
 		exitCode = 1
 	}
 	return
+}
+
+// fnInfo numbers the SSA values of a function once, so that a frame's
+// environment is a slice instead of a map.
+type fnInfo struct {
+	idx map[ssa.Value]int
+	n   int
+}
+
+var fnInfos = map[*ssa.Function]*fnInfo{}
+
+func infoOf(fn *ssa.Function) *fnInfo {
+	if fi := fnInfos[fn]; fi != nil {
+		return fi
+	}
+	fi := &fnInfo{idx: map[ssa.Value]int{}}
+	add := func(v ssa.Value) {
+		if _, ok := fi.idx[v]; !ok {
+			fi.idx[v] = fi.n
+			fi.n++
+		}
+	}
+	for _, p := range fn.Params {
+		add(p)
+	}
+	for _, v := range fn.FreeVars {
+		add(v)
+	}
+	for _, l := range fn.Locals {
+		add(l)
+	}
+	for _, b := range fn.Blocks {
+		for _, in := range b.Instrs {
+			if v, ok := in.(ssa.Value); ok {
+				add(v)
+			}
+		}
+	}
+	fnInfos[fn] = fi
+	return fi
 }
